@@ -592,3 +592,34 @@ pub fn update_keys_native(remote: bool) -> u32 {
     }
     2
 }
+
+/// Native replay body for the E2 queries `e2_datagrams_max_size` / `e2_datagrams_send` (C16): on a real
+/// connection whose peer advertised `peer` as max_datagram_frame_size, `max_size` leaves room for the
+/// largest DATAGRAM framing under both the peer's limit and the current path MTU, and `send` admits a
+/// datagram of `len_` bytes exactly when it is no longer than that (and the send buffer).
+pub fn dgram_api_native(peer: u32, len_: u16, drop: bool) -> u32 {
+    let mut conn = mk_conn(false, false);
+    conn.peer_params.max_datagram_frame_size = Some(VarInt::from_u32(peer));
+    let mtu = conn.path.current_mtu() as usize;
+    let overhead = conn.predict_1rtt_overhead(None);
+    let max = conn.datagrams().max_size().expect("peer supports datagrams");
+    let want = (peer as usize).saturating_sub(9).min(mtu - overhead - 9);
+    assert!(max == want, "max_size {} but peer limit {} / MTU {} allow {}", max, peer, mtu, want);
+    // the promise: a maximum-size datagram, framed with its length, fits the peer's limit and one packet
+    assert!(max + 9 <= (peer as usize).max(9) && max + 9 + overhead <= mtu);
+    let sbs = conn.config.datagram_send_buffer_size;
+    let data = Bytes::from(vec![7u8; len_ as usize]);
+    let r = conn.datagrams().send(data, drop);
+    if len_ as usize > max.min(sbs) {
+        assert!(matches!(r, Err(SendDatagramError::TooLarge)), "an oversized datagram was not refused as TooLarge");
+        assert!(conn.datagrams.outgoing.is_empty());
+        2
+    } else {
+        assert!(r.is_ok(), "a datagram within max_size was refused");
+        assert!(conn.datagrams.outgoing.len() == 1 && conn.datagrams.outgoing_total == len_ as usize);
+        // and nothing of it is dropped as oversized for the current path
+        let kept = !conn.datagrams.drop_oversized(max + 1);
+        assert!(kept);
+        1
+    }
+}
